@@ -142,3 +142,10 @@ MUTANTS = [
     dict(name="query_value_pushed_twice", file=U, **{"from": "        self.buf.extend_from_slice(b\"=\");\n        self.push_escaped(value);", "to": "        self.buf.extend_from_slice(b\"=\");\n        self.push_escaped(value);\n        self.push_escaped(value);"},
          expect=["C07.V.push_query_parameter_raw.post"]),
 ]
+
+BENIGN = [
+    dict(name="in_path_cleared_after_pushing", file=U, **{"from": "        let prefix = if self.in_path { b\"?\" } else { b\"&\" };\n        self.in_path = false;\n\n        self.buf.extend_from_slice(prefix);\n        self.buf.extend_from_slice(key.as_bytes());\n        self.buf.extend_from_slice(b\"=\");\n        self.push_escaped(value);",
+         "to": "        let prefix = if self.in_path { b\"?\" } else { b\"&\" };\n\n        self.buf.extend_from_slice(prefix);\n        self.buf.extend_from_slice(key.as_bytes());\n        self.buf.extend_from_slice(b\"=\");\n        self.push_escaped(value);\n        self.in_path = false;"}),
+    dict(name="component_set_members_reordered", file=U, **{"from": ".add(b'$').add(b'%').add(b'&').add(b'+').add(b',')", "to": ".add(b',').add(b'+').add(b'&').add(b'%').add(b'$')"}),
+    dict(name="optional_helper_uses_match", file=U, **{"from": "        if let Some(value) = value {\n            self.push_query_parameter(key, value);\n        }", "to": "        match value {\n            Some(value) => self.push_query_parameter(key, value),\n            None => {}\n        }"}),
+]
